@@ -13,8 +13,8 @@ EXTENDS StateLedger, Json, IOUtils
 TraceFile == IF "TRACE" \in DOMAIN IOEnv THEN IOEnv.TRACE ELSE "trace.ndjson"
 Tr == ndJsonDeserialize(TraceFile)
 
-VARIABLES l, tname, U, s, g, ctx, seen, viol, drift
-tvars == <<l, tname, U, s, g, ctx, seen, viol, drift>>
+VARIABLES l, tname, U, s, g, ctx, seen, viol, drift, ex
+tvars == <<l, tname, U, s, g, ctx, seen, viol, drift, ex>>
 
 U0 == [slots |-> {}, acct |-> <<>>, kind |-> <<>>]
 MkU(e) == LET ss == ToSet(e.slots) IN
@@ -23,7 +23,7 @@ MkU(e) == LET ss == ToSet(e.slots) IN
     kind  |-> [sl \in {x.sl : x \in ss} |-> (CHOOSE x \in ss : x.sl = sl).kind] ]
 
 Init == /\ l = 0 /\ tname = "" /\ U = U0 /\ s = SInit(U0) /\ g = GInit(U0) /\ ctx = "start"
-        /\ seen = {} /\ viol = {} /\ drift = {}
+        /\ seen = {} /\ viol = {} /\ drift = {} /\ ex = <<>>
         /\ TLCSet(1, 0)
 
 \* read every slot through the layered model (reads of different slots are independent: each only
@@ -95,8 +95,19 @@ Step(e) ==
                   s |-> [x.s EXCEPT !.dirty = [sl \in U.slots |-> IF sl \in g.free /\ x.v[sl] # e.vals[sl] THEN e.vals[sl] ELSE @[sl]]],
                   v |-> {<<tag, sl>> : sl \in bad},
                   d |-> IF \A sl \in U.slots \ g.free : x.v[sl] = e.vals[sl] THEN {} ELSE {"ReadAll"}, ctx |-> "read", seen |-> seen]
-  IN /\ U' = UU /\ tname' = nm /\ g' = r.g /\ s' = r.s /\ ctx' = r.ctx /\ seen' = r.seen
-     /\ viol'  = viol \cup {<<nm, l + 1, x[1], x[2]>> : x \in r.v}
+      \* C13_StableExistence: the "found" flag of a slot is part of what a read returns; between two writes it must not
+      \* depend on where the read is served from (dirty set, account cache, database, after Flush / Commit / Reopen).
+      \* ex: slot -> [value, flag] of its last read since the last state-changing step; any step other than a read,
+      \* Flush, Commit or Reopen forgets everything (conservative); a read that returns another value (uncommitted writes
+      \* are lost by Reopen) is judged by the other formulas and only re-bases the flag
+      keep == e.ev \in {"R", "Q", "ReadAll", "Flush", "Commit", "Reopen"}
+      obs  == IF e.ev = "R" THEN [x \in {e.sl} |-> [v |-> e.v, ex |-> e.ex]]
+              ELSE IF e.ev = "ReadAll" THEN [x \in DOMAIN e.ex |-> [v |-> e.vals[x], ex |-> e.ex[x]]] ELSE <<>>
+      \* same value as at the previous read of the slot, different "found" flag
+      exv  == {<<"C13_StableExistence", sl>> : sl \in {x \in DOMAIN obs \cap DOMAIN ex : keep /\ obs[x].v = ex[x].v /\ obs[x].ex # ex[x].ex}}
+      ex2  == IF ~keep THEN <<>> ELSE [x \in DOMAIN ex \cup DOMAIN obs |-> IF x \in DOMAIN obs THEN obs[x] ELSE ex[x]]
+  IN /\ U' = UU /\ tname' = nm /\ g' = r.g /\ s' = r.s /\ ctx' = r.ctx /\ seen' = r.seen /\ ex' = ex2
+     /\ viol'  = viol \cup {<<nm, l + 1, x[1], x[2]>> : x \in r.v \cup exv}
      /\ drift' = drift \cup {<<nm, l + 1, <<e.ev, x>>>> : x \in r.d}
 
 Next == /\ l < Len(Tr)
